@@ -12,8 +12,8 @@
    what is assumed of it is written in each statement: signing then verifying succeeds
    (correctness), a public key knows its algorithm, and public keys derived from secrets are
    canonically encoded. *)
-From Biscuit Require Import Model.Token Model.Readings Model.Wire Model.ThirdParty.
-From Biscuit Require Import Proofs.ChainLayout Proofs.ChainProofs Proofs.ChainOps Proofs.WireProofs Proofs.BuildProofs.
+From Biscuit Require Import Model.Token Model.Readings Model.Wire Model.ThirdParty Model.BlockWire.
+From Biscuit Require Import Proofs.ChainLayout Proofs.ChainProofs Proofs.ChainOps Proofs.WireProofs Proofs.BuildProofs Proofs.BlockWireProofs.
 From Biscuit Require Model.Schema Proofs.SchemaProofs.
 Local Open Scope N_scope.
 
@@ -176,3 +176,67 @@ Proof.
   - reflexivity.
   - vm_compute. repeat split.
 Qed.
+
+(* ---- the contents of a block (Model/BlockWire.v): the Block message and everything nested in
+   it -- symbols, context, version, facts, rules, checks, predicates, terms (sets, arrays and maps
+   at any nesting), expressions, ops, closures, scopes, public keys -- as prost's generated
+   structures hold them.  [pblock_ok] says what the Rust types guarantee (u32 / u64 / i32 / i64
+   scalars, UTF-8 strings) and that terms and ops nest at most 90 budget units deep (a set or
+   array level costs 2, a map level 3, a closure level 2; prost's budget is 100 and a block's
+   terms start at 96 or 97).  Every such value reads back as itself, so "exposes the same
+   blocks" and "serializing it again yields identical bytes" hold of the block contents too. *)
+Theorem C02_block_content_roundtrip : forall k : pblock,
+  pblock_ok k = true ->
+  N.of_nat (length (encode_block k)) < 18446744073709551616 ->
+  decode_block (encode_block k) = Some k /\
+  option_map encode_block (decode_block (encode_block k)) = Some (encode_block k).
+Proof. intros k H Hs. rewrite (decode_encode_block k H Hs). split; reflexivity. Qed.
+Print Assumptions C02_block_content_roundtrip.
+
+(* a term of any shape inside its budget, read back by the recursive decoder *)
+Theorem C02_term_roundtrip : forall (t : pterm) (budget : nat),
+  term_ok t = true -> (term_depth t <= budget)%nat ->
+  N.of_nat (length (enc_fields (term_fields t))) < 18446744073709551616 ->
+  fold_opt (step_term budget) (term_fields t) PTNone = Some t.
+Proof. intros t c. exact (term_roundtrip t c). Qed.
+Print Assumptions C02_term_roundtrip.
+
+(* an expression op (closures at any nesting) inside its budget *)
+Theorem C02_op_roundtrip : forall (o : pop) (budget : nat),
+  op_ok o = true -> (op_depth o <= budget)%nat ->
+  N.of_nat (length (enc_fields (op_fields o))) < 18446744073709551616 ->
+  fold_opt (step_op budget) (op_fields o) PONone = Some o.
+Proof. intros o c. exact (op_roundtrip o c). Qed.
+Print Assumptions C02_op_roundtrip.
+
+(* the nesting premise is needed: prost writes a fact whose term nests 49 arrays and refuses
+   to read it back (recursion budget); the builders refuse such a block at build time, which
+   the correspondence run checks on every run (evidence keys builder_nesting_depths_checked, builder_nesting_first_unreadable_depth) *)
+Fixpoint c2_nest (n : nat) (t : pterm) : pterm :=
+  match n with O => t | S n' => PTArray [c2_nest n' t] end.
+Definition c2_deep (n : nat) : pblock :=
+  mkpblock [] None (Some 6) [mkppred 1 [c2_nest n (PTInteger 1%Z)]] [] [] [] [].
+Theorem C02_block_nesting_premise_needed :
+  decode_block (encode_block (c2_deep 48)) = Some (c2_deep 48) /\
+  decode_block (encode_block (c2_deep 49)) = None.
+Proof. split; vm_compute; reflexivity. Qed.
+Print Assumptions C02_block_nesting_premise_needed.
+
+(* non-vacuity: a block with every kind of content meets the premises *)
+Definition c2_block : pblock :=
+  mkpblock [[104; 105]; [195; 169]] (Some [99]) (Some 6)
+    [mkppred 1024 [PTString 1025; PTSet [PTInteger (-1)%Z; PTInteger 2%Z];
+                   PTMap [(PKInt 3%Z, PTArray [PTNull; PTBool true]); (PKStr 1024, PTBytes [0; 255])]];
+     mkppred 2 [PTDate 1700000000; PTVariable 0]]
+    [mkprule (mkppred 3 [PTVariable 0]) [mkppred 1024 [PTVariable 0; PTVariable 1; PTVariable 2]]
+       [[POValue (PTVariable 0); POValue (PTInteger 9223372036854775807%Z); POBinary 0%Z None;
+         POClosure [] [POValue (PTVariable 1); POClosure [4] [POValue (PTVariable 4); POUnary 4%Z (Some 1025)]; POBinary 26%Z None];
+         POBinary 23%Z None]]
+       [PSType 0%Z; PSKey 0%Z]]
+    [mkpcheck [mkprule (mkppred 4 []) [] [[POValue (PTBool true)]] [PSType 1%Z]] (Some 2%Z)]
+    [PSType 1%Z] [mkwkey 1%Z [2; 3; 4]].
+Example C02_example_block :
+  pblock_ok c2_block = true /\
+  N.of_nat (length (encode_block c2_block)) < 18446744073709551616 /\
+  decode_block (encode_block c2_block) = Some c2_block.
+Proof. vm_compute. repeat split. Qed.
